@@ -205,4 +205,38 @@ theorem sum3_congr (n0 n1 n2 : Nat) (f g : Nat → Nat → Nat → Rat)
   apply sumTo_congr; intro k hk
   exact h i j k hi hj hk
 
+/-! ## exchanging sums (for the cube symmetry) -/
+
+theorem sumTo_comm (n m : Nat) (h : Nat → Nat → Rat) :
+    sumTo n (fun a => sumTo m (fun b => h a b)) = sumTo m (fun b => sumTo n (fun a => h a b)) := by
+  induction n with
+  | zero =>
+    simp only [sumTo]
+    exact (sumTo_zero m _ (fun _ _ => rfl)).symm
+  | succ n ih =>
+    simp only [sumTo]
+    rw [ih, ← sumTo_add]
+
+/-- cyclic renaming of the three summation indices of a cube -/
+theorem sum3_rot (n : Nat) (g : Nat → Nat → Nat → Rat) :
+    sum3 n n n (fun a b c => g b c a) = sum3 n n n g := by
+  unfold sum3
+  -- Σ_a Σ_b Σ_c g b c a = Σ_b Σ_a Σ_c g b c a = Σ_b Σ_c Σ_a g b c a
+  rw [sumTo_comm n n (fun a b => sumTo n (fun c => g b c a))]
+  apply sumTo_congr
+  intro b _
+  exact sumTo_comm n n (fun a c => g b c a)
+
+theorem sumTo_const (n : Nat) (c : Rat) : sumTo n (fun _ => c) = (n : Rat) * c := by
+  induction n with
+  | zero => simp [sumTo]
+  | succ n ih => simp only [sumTo, ih]; push_cast; ring
+
+theorem sum3_const (n0 n1 n2 : Nat) (c : Rat) :
+    sum3 n0 n1 n2 (fun _ _ _ => c) = (n0 : Rat) * ((n1 : Rat) * ((n2 : Rat) * c)) := by
+  unfold sum3
+  rw [sumTo_congr n0 _ (fun _ => (n1 : Rat) * ((n2 : Rat) * c)) (fun i _ => by
+    rw [sumTo_congr n1 _ (fun _ => (n2 : Rat) * c) (fun j _ => sumTo_const n2 c), sumTo_const])]
+  exact sumTo_const n0 _
+
 end DFV.C19
